@@ -385,6 +385,9 @@ func (Prop) Gen(seed int64, tier string) *harness.Case {
 	if r.Intn(8) == 0 {
 		depth = 4 + r.Intn(2)
 	}
+	if tier == "thorough" && r.Intn(4) == 0 {
+		depth = 4 + r.Intn(5)
+	}
 	for i := 0; i < depth; i++ {
 		wk := wrapKinds[r.Intn(len(wrapKinds))]
 		x := W{K: wk.k, A: r.Intn(wk.n)}
